@@ -147,6 +147,7 @@ PROPS["C14"] = {
     "harnesses": [
         {"pkg": PA, "func": "VerifH_C14_protocol", "replay_tries": 5, "covers": ["matched-resume", "unmatched-resume", "done"]},
         {"pkg": PA, "func": "VerifH_C14_two_controllers", "replay_tries": 50, "covers": ["both-returned"]},
+        {"pkg": PA, "func": "VerifH_C14_protocol4", "replay_tries": 5, "thorough_only": True, "opts": {"max_wall_s": 1500}, "covers": ["matched-resume", "unmatched-resume", "done"]},
         {"pkg": "internal/pkg/finisher", "func": "VerifH_C14_finisher_workers", "replay_tries": 5, "covers": ["stop-while-paused", "stop-while-running", "stopped"]},
     ],
 }
@@ -386,14 +387,16 @@ PROPS["C01"] = {
                    "symbolically (root answers 200/301/404/always-503/one transport failure; up to 2 embedded assets drawn from: image, stylesheet with its own asset, a duplicate, an excluded host, a non-http scheme, a 404; an outlink), "
                    "for max-hops/max-retry/max-redirect in {0,1}, asset capture on/off, seencheck on/off, under every interleaving of the stage goroutines within the preemption bound. At quiescence: exactly one finish report, no pending node, "
                    "every in-scope URL fetched exactly once, out-of-scope ones never, outlinks queued as fresh seeds, reactor empty. Stage panics (consistency checks) and deadlocks are violations.",
-    "bounds": "one seed, one worker per stage, <=2 assets (+1 asset of an asset), <=1 redirect, <=1 outlink; configuration bits above; <=2 preemptions",
+    "bounds": "one seed, one worker per stage, <=2 assets (+1 asset of an asset, + redirecting assets), <=1 redirect, <=1 outlink; configuration bits above; no preemptive context switch (every order of goroutines at blocking points and every select arm choice is explored; one preemption per path did not finish within the budget), <=8 pipeline passes",
     "outside": "several seeds in flight at once (token/ownership discipline: C12), more than one worker per stage, the real HTTP/WARC/HTML layers (modelled as in C02/C05/C06), the local and HQ queues",
     "assumptions": COMMON_ASSUME + ["all stub contracts of C02, C05 and C06 (scripted site instead of a scripted server; extractor layer returns the site's link lists)"],
     "models": PIPE_MODELS,
     "stub_pkgs": DEFAULT_STUBS + [STATS],
     "harnesses": [
-        {"pkg": "internal/verifpipe", "func": "VerifH_C01_one_seed", "replay_tries": 2, "opts": {"max_steps": 50000000, "unwind": 70000, "map_order_all": False},
+        {"pkg": "internal/verifpipe", "func": "VerifH_C01_one_seed", "replay_tries": 2, "opts": {"max_steps": 50000000, "unwind": 70000, "map_order_all": False, "no_preempt": True},
          "covers": ["finished", "asset-fetched", "asset-of-asset", "redirect-followed", "always-failing", "outlink-produced", "asset-redirect-followed", "asset-redirects-out-of-scope"]},
+        {"pkg": "internal/verifpipe", "func": "VerifH_C01_one_seed_3assets", "replay_tries": 2, "thorough_only": True, "opts": {"max_steps": 50000000, "unwind": 70000, "map_order_all": False, "max_wall_s": 3000, "no_preempt": True},
+         "covers": ["finished", "asset-fetched", "asset-of-asset"]},
     ],
 }
 
@@ -413,7 +416,7 @@ PROPS["C16"] = {
         {"pkg": RL, "func": "VerifH_C16_bucket_bound", "opts": {"abstract_time": True}, "covers": ["table-full"]},
         {"pkg": AR, "func": "VerifH_C02_archive", "models": ARCH_MODELS, "opts": {"max_steps": 50000000, "unwind": 70000}, "covers": ["archived", "retries-exhausted"]},
         {"pkg": PP, "func": "VerifH_C06_postprocess", "models": POSTPROC_MODELS, "opts": {"map_order_all": False}, "covers": ["body-released"]},
-        {"pkg": "internal/verifpipe", "func": "VerifH_C01_one_seed", "replay_tries": 2, "opts": {"max_steps": 50000000, "unwind": 70000, "map_order_all": False}, "covers": ["finished"]},
+        {"pkg": "internal/verifpipe", "func": "VerifH_C01_one_seed", "replay_tries": 2, "opts": {"max_steps": 50000000, "unwind": 70000, "map_order_all": False, "no_preempt": True}, "covers": ["finished"]},
     ],
 }
 
